@@ -17,7 +17,7 @@ func init() {
 		ID:    "C06",
 		Level: "other",
 		Explain: "Infoset equality is a runtime notion; decided are the structural clauses: (R06.1) the token switch of the XML minifier has a case for every token type of the lexer except comments, and every case writes the token on all paths (enumerated exceptions: the error return, the empty CDATA section); " +
-			"(R06.2) with KeepWhitespace the trim next to a start/end tag is unreachable and `omitSpace = false` follows every start and end tag; (R06.3) with KeepWhitespace no whitespace-only text token is recognised for dropping (the empty-element collapse `<a> </a>` → `<a/>`). Not covered: entity / CDATA byte-level round trips, word joining across comments.",
+			"(R06.2) with KeepWhitespace the trim next to a start/end tag is unreachable and `omitSpace = false` follows every start and end tag; (R06.3) with KeepWhitespace no whitespace-only text token is recognised for dropping (the empty-element collapse `<a> </a>` → `<a/>`). (R06.4) decoded character references are re-escaped where a parser would not read the bare character back; (R06.5) only character data is rewritten; (R06.6) omitSpace follows the data written last; (R06.7) no `=` for the value-less words of a processing instruction. Not covered: CDATA byte-level round trips, `]]>` produced from `]]&gt;`, white space inside PI content.",
 		Run: runC06,
 	})
 	register(&Property{
@@ -48,6 +48,18 @@ func init() {
 	mutant(&Mutant{Name: "c06-pi-data-trimmed", Property: "C06", File: "xml/xml.go",
 		Old: "\t\tcase xml.StartTagPIToken:\n\t\t\tw.Write(t.Data)\n", New: "\t\tcase xml.StartTagPIToken:\n\t\t\tt.Data = parse.ToLower(t.Data)\n\t\t\tw.Write(t.Data)\n",
 		Rule: "R06.5", Construct: "assignment to t.Data"})
+	mutant(&Mutant{Name: "c06-cdata-leaves-omitspace", Property: "C06", File: "xml/xml.go",
+		Old: "\t\t\tomitSpace = len(t.Text) > 0 && parse.IsWhitespace(t.Text[len(t.Text)-1]) // the next text follows this data, not the tag before it\n", New: "\t\t\tif len(t.Text) > 0 && parse.IsWhitespace(t.Text[len(t.Text)-1]) {\n\t\t\t\tomitSpace = true\n\t\t\t}\n",
+		Rule: "R06.6", Construct: "case xml.CDATAToken"})
+	mutant(&Mutant{Name: "c06-pi-words-get-equals", Property: "C06", File: "xml/xml.go",
+		Old: "\t\t\tif inPI && len(t.AttrVal) == 0 {\n\t\t\t\tbreak // a word of the processing instruction's content, not an attribute\n\t\t\t}\n", New: "",
+		Rule: "R06.7", Construct: "not written for a value-less word"})
+	mutant(&Mutant{Name: "c06-pi-flag-never-cleared", Property: "C06", File: "xml/xml.go",
+		Old: "\t\t\tw.Write(t.Data)\n\t\t\tinPI = false\n", New: "\t\t\tw.Write(t.Data)\n",
+		Rule: "R06.7", Construct: "not written for a value-less word"})
+	mutant(&Mutant{Name: "c06-attr-whitespace-refs-decoded", Property: "C06", File: "xml/xml.go",
+		Old: "val = parse.ReplaceEntities(val, EntitiesMap, AttrRevEntitiesMap)", New: "val = parse.ReplaceEntities(val, EntitiesMap, TextRevEntitiesMap)",
+		Rule: "R06.4", Construct: "ReplaceEntities(val)"})
 	mutant(&Mutant{Name: "c07-guard-includes-plus", Property: "C07", File: "json/json.go",
 		Old: "('0' <= text[0] && text[0] <= '9' || text[0] == '-')", New: "('+' <= text[0] && text[0] <= '9' || text[0] == '-')",
 		Rule: "R07.1", Construct: "number guard"})
@@ -239,7 +251,96 @@ func runC06(c *Ctx) {
 		c.R.Check(p == nil, r3, fmt.Sprintf("xml.Minifier.Minify/whitespace-only text recognised for dropping#%d", k), c.pos(y.Expr), "unreachable when KeepWhitespace", "with KeepWhitespace a whitespace-only text between tags is still dropped entirely (`<a> </a>` → `<a/>`): "+pathStr(c, g, p))
 	}
 	c.R.Floor(r3, "whitespace-only text tests", k, 1)
-	c.entityReescape("R06.4", "xml", 2)
+	c.entityReescape("R06.4", "xml", 2, true)
+
+	// R06.6: omitSpace describes the last thing written
+	const r6 = "R06.6"
+	c.R.Rule(r6, "omitSpace (`the next text must not start with a space`) has to describe the token written last. In the cases that write character data — TextToken and CDATAToken — it is assigned on every path from the case to the next token: a value left over from an earlier tag makes the following text lose its leading space although the data just written ends in a non-space (`<a><![CDATA[x]]> y</a>` → `<a>xy</a>`: two words joined)")
+	omitAssigned := func(y *flow.Node) bool {
+		_, ok := assignsTo(y, func(l ast.Expr) bool { return str(l) == "omitSpace" })
+		return ok
+	}
+	for _, k := range []string{"TextToken", "CDATAToken"} {
+		cn := cases[k]
+		if cn == nil {
+			continue
+		}
+		var tn *flow.Node
+		for _, s := range cn.Succs {
+			if s.Kind == flow.KTrue {
+				tn = s
+			}
+		}
+		p := g.Path(flow.Search{From: []*flow.Node{tn}, Goal: func(y *flow.Node) bool { return y == head || y.Kind == flow.KExit }, Avoid: omitAssigned})
+		c.R.Check(p == nil, r6, "xml.Minifier.Minify/case xml."+k+"/omitSpace follows the written data", c.pos(cn.Expr), "assigned on every path", "after a "+k+" is written omitSpace can keep the value it had before: "+pathStr(c, g, p))
+	}
+
+	// R06.7: `=` only in front of a value
+	const r7 = "R06.7"
+	c.R.Rule(r7, "the lexer delivers the words of a processing instruction (`<?pi some data?>`) as attribute tokens without a value. In the AttributeToken case, under the stipulation that the token has no value (t.AttrVal empty), the write of the `=` sign is reachable only through the false outcome of a flag that is set in the StartTagPIToken case and cleared in the StartTagClosePIToken case (i.e. outside <?…?>; the suite pins `<!doctype html>` → `<!doctype html=>`): otherwise the PI content comes out as `some= data=`")
+	if cn := cases["AttributeToken"]; cn != nil {
+		nEq := 0
+		for _, y := range g.Nodes {
+			a := y.Ast()
+			if a == nil || y.Kind != flow.KStmt || c.caseLabel(a) != "case xml.AttributeToken" {
+				continue
+			}
+			isEq := false
+			flowInspectCalls(a, func(call *ast.CallExpr) {
+				if sel, isSel := call.Fun.(*ast.SelectorExpr); isSel && sel.Sel.Name == "Write" && len(call.Args) == 1 {
+					if v, err := c.Ev.Expr(pk, call.Args[0]); err == nil {
+						if b, isB := v.([]byte); isB && string(b) == "=" {
+							isEq = true
+						}
+					}
+				}
+			})
+			if !isEq {
+				continue
+			}
+			nEq++
+			// boolean locals that are true exactly between <?target and ?>: assigned true in the
+			// StartTagPIToken case and false in the StartTagClosePIToken case
+			piVars := map[string]bool{}
+			for _, z := range g.Nodes {
+				if as, ok := z.Stmt.(*ast.AssignStmt); ok && z.Kind == flow.KStmt && len(as.Lhs) == 1 && len(as.Rhs) == 1 {
+					lab := c.caseLabel(as)
+					if lab == "case xml.StartTagPIToken" && str(as.Rhs[0]) == "true" {
+						piVars[str(as.Lhs[0])] = true
+					}
+				}
+			}
+			for v := range piVars {
+				cleared := false
+				for _, z := range g.Nodes {
+					if as, ok := z.Stmt.(*ast.AssignStmt); ok && z.Kind == flow.KStmt && len(as.Lhs) == 1 && len(as.Rhs) == 1 {
+						if c.caseLabel(as) == "case xml.StartTagClosePIToken" && str(as.Lhs[0]) == v && str(as.Rhs[0]) == "false" {
+							cleared = true
+						}
+					}
+				}
+				if !cleared {
+					delete(piVars, v)
+				}
+			}
+			var caseTrue *flow.Node
+			for _, sc := range cn.Succs {
+				if sc.Kind == flow.KTrue {
+					caseTrue = sc
+				}
+			}
+			notInPI := func(z *flow.Node) bool {
+				if z.Kind != flow.KFalse || z.Of == nil || z.Of.Kind != flow.KCond {
+					return false
+				}
+				return piVars[str(z.Of.Expr)]
+			}
+			valueless := map[string]bool{"len(t.AttrVal) == 0": true, "t.AttrVal == nil": true, "len(t.AttrVal) != 0": false, "t.AttrVal != nil": false, "0 < len(t.AttrVal)": false, "len(t.AttrVal) > 0": false}
+			p := g.Path(flow.Search{From: []*flow.Node{caseTrue}, Goal: func(z *flow.Node) bool { return z == y }, Avoid: notInPI, AssumeRaw: valueless})
+			c.R.Check(p == nil, r7, fmt.Sprintf("xml.Minifier.Minify/case xml.AttributeToken/`=`#%d not written for a value-less word of a PI", nEq), c.pos(a), "unreachable for a token without value inside <?…?>", "`=` is written for a value-less attribute token inside a processing instruction: `<?pi some data?>` becomes `<?pi some= data=?>`: "+pathStr(c, g, p))
+		}
+		c.R.Floor(r7, "writes of the equals sign", nEq, 1)
+	}
 
 	// R06.5: which token kinds may be rewritten at all
 	const r5 = "R06.5"
@@ -356,8 +457,8 @@ func runC06(c *Ctx) {
 }
 
 // entityReescape (R06.4 / R05.4): decoded character references never leave a bare markup character.
-func (c *Ctx) entityReescape(rule, rel string, floor int) {
-	c.R.Rule(rule, "package "+rel+": parse.ReplaceEntities / ReplaceMultipleWhitespaceAndEntities decode numeric character references (&#60; &#38;) to the bare character; in XML both text and attribute values must not contain a bare `<` or `&`. Every call therefore passes, as its reverse-entities argument, a table that evaluates to a map with entries for '<' and '&' whose values decode back to those characters — otherwise `a=\"&#60;\"` becomes `a=\"<\"` (ill-formed) and `x &#60;b&#62; y` becomes markup")
+func (c *Ctx) entityReescape(rule, rel string, floor int, whitespace bool) {
+	c.R.Rule(rule, "package "+rel+": parse.ReplaceEntities / ReplaceMultipleWhitespaceAndEntities decode numeric character references (&#60; &#38;) to the bare character; in XML both text and attribute values must not contain a bare `<` or `&`; a literal CR does not survive end-of-line handling, and a literal TAB/LF/CR in an attribute value does not survive attribute-value normalisation. Every call therefore passes, as its reverse-entities argument, a table that evaluates to a map with entries for '<', '&', CR — and TAB, LF when the argument is an attribute value — whose values decode back to those characters — otherwise `a=\"&#60;\"` becomes `a=\"<\"` (ill-formed) and `x &#60;b&#62; y` becomes markup")
 	pk := c.pkg(rule, rel)
 	if pk == nil {
 		return
@@ -368,25 +469,50 @@ func (c *Ctx) entityReescape(rule, rel string, floor int) {
 		for _, call := range findCalls(info, fd.Body, true, load.ParseMod+".ReplaceEntities", load.ParseMod+".ReplaceMultipleWhitespaceAndEntities") {
 			n++
 			construct := fmt.Sprintf("%s.%s/%s(%s) re-escapes markup characters", pk.Name, load.FuncName(fd), str(call.Fun), str(call.Args[0]))
+			// context: attribute value or character data
+			need := []byte{'<', '&', '\r'}
+			ctx := "text"
+			isAttr := strings.Contains(str(call.Args[0]), "AttrVal")
+			if id, ok := ast.Unparen(call.Args[0]).(*ast.Ident); ok && !isAttr {
+				ast.Inspect(fd.Body, func(x ast.Node) bool {
+					if as, ok := x.(*ast.AssignStmt); ok && len(as.Lhs) == 1 && len(as.Rhs) == 1 {
+						if l, isId := as.Lhs[0].(*ast.Ident); isId && (info.Defs[l] != nil && info.Defs[l] == info.Uses[id]) && strings.Contains(str(as.Rhs[0]), "AttrVal") {
+							isAttr = true
+						}
+					}
+					return true
+				})
+			}
+			if isAttr {
+				need, ctx = []byte{'<', '&', '\t', '\n', '\r'}, "attribute value"
+			}
+			if !whitespace {
+				// SVG: the minifier treats white space in attribute values and text as collapsible throughout
+				need = []byte{'<', '&'}
+			}
 			var missing []string
 			if isNilExpr(call.Args[2]) {
-				missing = []string{"<", "&"}
+				for _, ch := range need {
+					missing = append(missing, fmt.Sprintf("%q", ch))
+				}
 			} else if v, err := c.Ev.Expr(pk, call.Args[2]); err != nil {
 				c.R.Unres(rule, construct, c.pos(call), "reverse-entities argument cannot be evaluated: "+err.Error())
 				continue
 			} else if m, ok := v.(*eval.Map); ok {
-				for _, ch := range []byte{'<', '&'} {
+				for _, ch := range need {
 					val, has := m.Get(int64(ch))
 					b, _ := val.([]byte)
 					if !has || xmlUnescape(string(b)) != string(ch) {
-						missing = append(missing, string(ch))
+						missing = append(missing, fmt.Sprintf("%q", ch))
 					}
 				}
 			} else {
-				missing = []string{"<", "&"}
+				for _, ch := range need {
+					missing = append(missing, fmt.Sprintf("%q", ch))
+				}
 			}
-			c.R.Check(len(missing) == 0, rule, construct, c.pos(call), "reverse map covers '<' and '&'",
-				"a numeric character reference for "+strings.Join(missing, " / ")+" is decoded and the bare character is written into the document: the output is not well-formed or parses to a different tree")
+			c.R.Check(len(missing) == 0, rule, construct, c.pos(call), "reverse map covers what a "+ctx+" must keep escaped",
+				"a numeric character reference for "+strings.Join(missing, " / ")+" in a "+ctx+" is decoded and the bare character is written into the document: a bare `<`/`&` is ill-formed or becomes markup; a literal tab/newline in an attribute value is normalised to a space and a literal CR to LF by every XML parser (XML 1.0 §3.3.3, §2.11), so only the reference keeps the character")
 		}
 	}
 	c.R.Floor(rule, rel+" entity replacement calls", n, floor)
